@@ -53,6 +53,7 @@ def main():
     kinds = [a for a in args if a in ("regress", "seeded", "refactor")] or ["regress", "seeded", "refactor"]
     only = [a for a in args if a not in ("regress", "seeded", "refactor")]      # name prefixes: run only these entries
     bad = 0
+    hard = []           # failures that are never acceptable: a reversed fix not reported, a silent seed, a false alarm
     if "regress" in kinds:
         exp = json.loads((V / "regress" / "expected.json").read_text())
         for f, prop in sorted(exp.items()):
@@ -62,6 +63,8 @@ def main():
             v = r.get(prop, ("error", [r.get("error")]))[0] if "error" not in r else "error"
             print(f"regress {f:14s} {prop}: {v}")
             bad += v != "VIOLATION"
+            if v != "VIOLATION":
+                hard.append(f"reversed fix {f} is not reported ({v})")
     if "seeded" in kinds:
         for sd in sorted((V / "seeded").iterdir()):
             if not (sd / "meta.json").exists() or (only and not any(sd.name.startswith(o) for o in only)):
@@ -71,6 +74,8 @@ def main():
             v = r[prop][0] if "error" not in r else "error"
             print(f"seeded  {sd.name:55s} {prop}: {v}")
             bad += v != "VIOLATION"
+            if v == "silent":
+                hard.append(f"seed {sd.name} passes silently")
     if "refactor" in kinds and (V / "refactor").exists():
         for sd in sorted((V / "refactor").iterdir()):
             if not (sd / "patch.diff").exists() or (only and not any(sd.name.startswith(o) for o in only)):
@@ -87,7 +92,10 @@ def main():
                 for x in l[:2]:
                     print(f"      {p}: {x}")
             bad += len(viol)
-    print("REGRESSION", "OK" if not bad else f"FAILED ({bad})")
+            hard.extend(f"false alarm of {p_} on refactoring {sd.name}" for p_ in sorted(viol))
+    for h in hard:
+        print("HARD FAILURE:", h)
+    print("REGRESSION", "OK" if not bad else f"FAILED ({bad}: {len(hard)} hard, the rest undecided seeds)")
     return 1 if bad else 0
 
 
